@@ -41,7 +41,13 @@ def lib_parse(d, data, kw, offset=0):
     s = TracedStream(data, pos=offset, keeplog=False)
     try:
         v = d.parse_stream(s, **kw)
-        return ("ok", v, s.pos - offset)
+        consumed = s.pos - offset
+        if "Lazy" in repr(type(v)) or "Lazy" in repr(v)[:2000]:
+            # deferred members are read inside the observed call (a lazy parse has accepted the input only once they can all be
+            # read); the position reported is the one the parse itself left
+            norm(v)
+            s.pos = offset + consumed
+        return ("ok", v, consumed)
     except C.ConstructError as e:
         return ("reject", type(e).__name__, getattr(e, "path", None))
     except Exception as e:
